@@ -48,7 +48,7 @@ def cases(draw, tier="quick"):
     batch = draw(st.sampled_from([[], [], [2]]))
     nb = 2 if batch else 1
     vals = gen.draw_values(draw, n * nb, dt, func, nan_p=0.35)
-    lab = gen.draw_labels(draw, n, kinds=["int", "negint", "float", "floatint", "floatint", "str"], max_groups=5)
+    lab = gen.draw_labels(draw, n, kinds=["int", "negint", "float", "floatint", "floatint", "str", "u1", "i2"], max_groups=5)
     case = {"arr": {"dt": dt, "sh": batch + [n], "v": vals}, "by": lab["spec"], "func": func}
     if gen.func_family(func) == "var":
         case["ddof"] = draw(st.sampled_from([None, 0, 1]))
@@ -56,7 +56,7 @@ def cases(draw, tier="quick"):
     for v in lab["spec"]["v"]:
         if v != "nan" and v not in present:
             present.append(v)
-    extra = {"int": [20, 21, -1, 13], "negint": [100, -100, 4], "float": [99.5, -99.5, 0.25], "floatint": [5.0, 6.0, -2.0, 3.5],
+    extra = {"int": [20, 21, -1, 13], "negint": [100, -100, 4], "float": [99.5, -99.5, 0.25], "floatint": [5.0, 6.0, -2.0, 3.5], "u1": [7, 100, 255], "i2": [7, -100, 4],
              "str": ["y", "z", "A"]}[lab["kind"]]  # fmt: skip
     rel = draw(st.sampled_from(["superset", "superset", "subset", "disjoint", "equal", "mixed"]))
     if not present and rel in ("subset", "equal", "mixed"):
